@@ -27,9 +27,16 @@ CLAIM = dict(
     "(baseline_zero, cleaning_filter_nonneg); the stages present are called once each in the documented order, swapped "
     "when configured (stage_order), each on the output of the previous one (stage_inputs), the result being "
     "model(restoration(balancing(cleaning(reduction(difference))))) (result_eq_composition); positive+negative=absolute, "
-    "positive-negative=plain; probe and baseline untouched whatever a stage does to its input; kind rule. The skeleton is "
+    "positive-negative=plain; probe and baseline untouched whatever a stage does to its input; kind rule; integer images: "
+    "after the promotion the code performs (value / (2^bits - 1)) every difference option equals the exact integer "
+    "difference scaled, within [-1, 1] resp. [0, 1] - no wrap-around (diff_no_wrap); the cleaning filter is the running "
+    "maximum (from 0) of the extra baselines' reduced differences, non-negative, dominating each of them and attained, so "
+    "every extra baseline is cleaned to zero (cleaning_filter_is_running_max, extra_baseline_cleaned_zero); the stock "
+    "reductions are modelled with their formulas (gray = 0.299 R + 0.587 G + 0.114 B in that order, negative-key, channel "
+    "selections; reduction_semantics) and tied numerically (1e-5, cv2 float32) through the real analysis. The skeleton is "
     "tied to the code by running the real class with instrumented real stage objects against the model (exact, dyadic "
-    "float images). Conversion of integer images (img_as(float)), skimage.compare_images, TVD, cv2 gray reduction are "
+    "float images); the promotion statement is tied by comparing the real analysis on uint8 / uint16 images with the model's "
+    "exact rationals (float round-off measured, < 1e-12 required). skimage.compare_images, TVD, cv2 gray reduction are "
     "outside the model: observed by the oracle (baseline -> 0 exactly, no wrap-around, 0-preservation of the stock stages).",
     note="stage objects are parameters of the model; dtype promotion and library numerics observed only",
     technique="Lean 4 proof (list induction, case analysis over configurations, ordered-field arithmetic) + differential "
@@ -71,6 +78,10 @@ def mk_stage(d, spec):
         return d.MonochromaticReduction(color=["red", "green", "blue"][spec[1]])
     if spec[0] == "chanAdd":
         return d.MonochromaticReduction(color="red+green")
+    if spec[0] == "gray":
+        return d.MonochromaticReduction(color="gray")
+    if spec[0] == "negkey":
+        return d.MonochromaticReduction(color="negative-key")
     if spec[0] == "affine":
         return d.LinearModel(scaling=spec[1], offset=spec[2])
     if spec[0] == "clip":
@@ -433,6 +444,108 @@ def oracle(ctx, d):
             ctx.fail(f"C13:negative-part-of-clipped-difference(dtype={case['dtype']})", "clipped / absolute difference has negative entries", case)
 
 
+def reduction_tie(ctx, d):
+    """the stock signal reductions inside the real analysis against the model's exact formulas (gray: 0.299 R + 0.587 G +
+    0.114 B in that channel order; negative-key; channel selections): cv2 works in float32, so the comparison is numeric
+    (1e-5), a larger deviation is a failing input"""
+    from fractions import Fraction
+
+    lines, cases = [], []
+    for n in range(ctx.pick(150, 1500)):
+        red = ctx.rng.choice([("gray",), ("gray",), ("negkey",), ("chan", 0), ("chan", 1), ("chan", 2), ("chanAdd", 0, 1)])
+        opt = ctx.rng.choice(OPTS)
+        shape = (ctx.rng.randint(1, 4), ctx.rng.randint(1, 4))
+        base = rand_image(ctx, d, "OpticalImage", shape, hi=4)
+        probe = rand_image(ctx, d, "OpticalImage", shape, hi=4)
+        if ctx.rng.random() < 0.4:  # a pure single-channel tracer on top of the baseline
+            probe = base.copy()
+            probe.img[..., ctx.rng.choice([0, 2])] += 0.5
+        n_extra = ctx.rng.randint(0, 2)
+        extras = [rand_image(ctx, d, "OpticalImage", shape, hi=4) for _ in range(n_extra)]
+        cfg = dict(opt=opt, first=True, reduction=red, balancing=None, restoration=None, model=None)
+        req = (f"call {opt} 1 OpticalImage {show_arr(base.img)} {n_extra} " + " ".join(show_arr(e.img) for e in extras) + " "
+               + show_arr(probe.img) + " " + " ".join(show_stage(cfg[k]) if cfg[k] is None or len(cfg[k]) > 1 else cfg[k][0] for k in ORDER))
+        lines.append(" ".join(req.split()))
+        cases.append((cfg, base, extras, probe))
+    got = ctx.model(lines)
+    worst = 0.0
+    for line, out, (cfg, base, extras, probe) in zip(lines, got, cases):
+        ctx.count(("reduction", line))
+        log = []
+        an = build(d, cfg, [base] + extras, log)
+        res = an if isinstance(an, Raised) else call(lambda: an(probe))
+        case = dict(reduction=cfg["reduction"][0] + "".join(str(x) for x in cfg["reduction"][1:]), opt=cfg["opt"], base=base.img.tolist(),
+                    probe=probe.img.tolist(), extras=[e.img.tolist() for e in extras])
+        if isinstance(res, Raised):
+            ctx.fail(f"C13:call-raises({type(res.exc).__name__},dtype=float64,kind=OpticalImage)", f"analysis raises {res.exc!r}", case)
+            continue
+        try:
+            exact = [Fraction(t) for t in out.split("|")[2].split()[3:]]
+        except (ValueError, IndexError, ZeroDivisionError):
+            ctx.mark("TIE-BROKEN", {"driver_output": out[:200], "request": line[:200]})
+            continue
+        vals = np.asarray(res.img, dtype=np.float64).ravel()
+        if len(exact) != vals.size:
+            ctx.fail(f"C13:reduction({case['reduction']}):shape", "reduced signal has another number of entries than pixels", case)
+            continue
+        dev = max(abs(float(v) - float(e)) for v, e in zip(vals, exact))
+        worst = max(worst, dev)
+        if dev > 1e-5:
+            ctx.fail(f"C13:reduction({case['reduction']}):differs-from-documented-reduction",
+                     f"the analysis with signal reduction '{case['reduction']}' deviates by {dev:.3g} from the documented reduction of the "
+                     "difference (for gray: 0.299 R + 0.587 G + 0.114 B)", dict(case, max_dev=dev, observed=vals.tolist(), required=[float(e) for e in exact]))
+    ctx.cov["reduction_max_float_error"] = worst
+
+
+def promotion_tie(ctx, d):
+    """integer images: the difference the real analysis returns (no stages) against the model's exact promoted difference
+    (value / (2^bits - 1), then the option); float round-off measured, anything larger is a failing input"""
+    from fractions import Fraction
+
+    lines, cases = [], []
+    for n in range(ctx.pick(120, 1200)):
+        bits = ctx.rng.choice([8, 16])
+        dtype = np.uint8 if bits == 8 else np.uint16
+        opt = ctx.rng.choice(OPTS)
+        shape = (ctx.rng.randint(1, 4), ctx.rng.randint(1, 5))
+        r = np.random.RandomState(ctx.rng.randrange(2 ** 31))
+        hi = 2 ** bits
+        probe = r.randint(0, hi, size=shape).astype(dtype)
+        base = r.randint(0, hi, size=shape).astype(dtype)
+        if ctx.rng.random() < 0.3:  # extremes: the cases that wrap without promotion
+            probe.flat[0], base.flat[0] = 0, hi - 1
+            probe.flat[-1], base.flat[-1] = hi - 1, 0
+        lines.append(f"diffint {bits} {opt} {probe.size} " + " ".join(map(str, probe.ravel().tolist())) + f" {base.size} "
+                     + " ".join(map(str, base.ravel().tolist())))
+        cases.append((bits, opt, probe, base))
+    got = ctx.model(lines)
+    worst = 0.0
+    for line, out, (bits, opt, probe, base) in zip(lines, got, cases):
+        ctx.count(("promotion", line))
+        an = call(lambda: d.ConcentrationAnalysis(d.ScalarImage(base, dimensions=[1.0, 1.0]), **{"diff option": opt}))
+        res = an if isinstance(an, Raised) else call(lambda: an(d.ScalarImage(probe, dimensions=[1.0, 1.0])))
+        case = dict(bits=bits, opt=opt, probe=probe.tolist(), base=base.tolist())
+        if isinstance(res, Raised):
+            ctx.fail(f"C13:call-raises({type(res.exc).__name__},dtype=uint{bits},kind=ScalarImage)", f"analysis raises {res.exc!r}", case)
+            continue
+        try:
+            exact = [Fraction(t) for t in out.split()]
+        except (ValueError, ZeroDivisionError):
+            ctx.mark("TIE-BROKEN", {"driver_output": out[:200], "request": line[:200]})
+            continue
+        vals = np.asarray(res.img, dtype=np.float64).ravel()
+        if len(exact) != vals.size:
+            ctx.fail(f"C13:promotion(uint{bits},{opt}):shape", "result has another number of entries than the images", case)
+            continue
+        dev = max(abs(Fraction(float(v)) - e) for v, e in zip(vals, exact))
+        worst = max(worst, float(dev))
+        if dev > Fraction(1, 10 ** 12):
+            ctx.fail(f"C13:promotion(uint{bits},{opt}):differs-from-promoted-integer-difference",
+                     f"difference of integer images deviates by {float(dev):.3g} from (option of) (probe - baseline) / {2 ** bits - 1} "
+                     "(wrap-around or missing promotion)", dict(case, max_dev=float(dev), observed=vals.tolist()))
+    ctx.cov["promotion_max_float_error"] = worst
+
+
 def replay(data):
     print("property C13 replay")
     for k in ("signature", "what"):
@@ -446,6 +559,8 @@ def run(ctx):
 
     ctx.prove("C13")
     correspondence(ctx, d)
+    promotion_tie(ctx, d)
+    reduction_tie(ctx, d)
     oracle(ctx, d)
     ctx.cov["rule"] = "distinct = request line (correspondence) / (clause, diff option, dtype, kind, shape, #extra baselines, stage configuration)"
     ctx.assumptions += [
